@@ -101,6 +101,7 @@ fn cmd_hist(a: &Args) -> Ev {
         if deep {
             g.spine = spine(w);
         }
+        g.flood = hi % 4 == 2 && maxlen.is_none() && a.u("flood", 1) == 1;
         g.max_keys = a.u("max_keys", if w == 8 { 36 } else { 28 }) as usize;
         g.canonical_only = match prop.as_str() {
             "C15" | "C11" => hi % 2 == 0,
@@ -180,13 +181,18 @@ fn cmd_pairs(a: &Args) -> Ev {
     let mut ev = Ev::new(&prop);
     let (w, keeps) = kinds::kind_facts(&kind);
     let uni = universe(w, a.0.get("maxlen").and_then(|v| v.parse::<u8>().ok()));
+    let uni_spine = universe_with_spine(w, a.0.get("maxlen").and_then(|v| v.parse::<u8>().ok()));
     let mut run = 0u64;
     let mut done = 0u64;
     while done < rounds && !budget.expired() && ev.violations.is_empty() {
         let ri = only.unwrap_or(run);
         run += 1;
         let rng = Rng::from_parts(&[seed, shard, ri, 0x5052]);
-        let mut g = gen::Gen::new(w, keeps, uni.clone(), rng, false);
+        let deep = w > 8 && !a.0.contains_key("maxlen") && ri % 3 == 1 && a.u("spine", 1) == 1;
+        let mut g = gen::Gen::new(w, keeps, if deep { uni_spine.clone() } else { uni.clone() }, rng, false);
+        if deep {
+            g.spine = spine(w);
+        }
         g.max_keys = a.u("max_keys", 24) as usize;
         let mut rj = a.json();
         rj["cmd"] = json!("pairs");
